@@ -74,7 +74,7 @@ __asm__ (".text\n.globl chk_thunk\n.type chk_thunk,@function\nchk_thunk:\n"
 
 /* ---------------- enumeration ---------------- */
 static int callee_mode, thorough_p;
-static uint64_t G1, G2, G3, G4, G5, G6, NPROTO;
+static uint64_t G1, G2, G3, G4, G5, G6, G7, NPROTO;
 static const int LONG_N[6] = {30, 64, 65, 66, 100, 130};
 #define VT_N 6
 static const uint8_t VT[VT_N] = {T_I64, T_D, T_LD, T_BM, T_BI, T_BS};
@@ -104,6 +104,10 @@ static void decode (uint64_t idx, proto *p) {
     p->vfrom = p->n; for (int i = 0; i < len; i++) { add_arg (p, VT[idx % VT_N]); idx /= VT_N; }
     p->nres = 1; p->r[0] = T_I64; return; }
   idx -= G4;
+  if (idx >= G5 + G6) { idx -= G5 + G6; int n = idx % 14 + 1, k = idx / 14 % 4, fx = (int) (idx / 56); /* long variadic tails: the register save area runs out inside the tail */
+    add_arg (p, fx ? T_D : T_I64); p->vfrom = 1;
+    for (int i = 0; i < n; i++) add_arg (p, k == 0 ? T_I64 : k == 1 ? T_D : k == 2 ? (i % 2 ? T_D : T_I64) : (i % 3 == 2 ? T_LD : i % 3 ? T_D : T_I64));
+    p->nres = 1; p->r[0] = T_I64; return; }
   if (idx >= G5) { idx -= G5; int n = LONG_N[idx % 6], k = (int) (idx / 6); /* long argument lists: all integers, all doubles, alternating with a long double every 16th */
     for (int i = 0; i < n; i++) add_arg (p, k == 0 ? T_I64 : k == 1 ? T_D : i % 16 == 15 ? T_LD : i % 2 ? T_D : T_I32);
     p->nres = 1; p->r[0] = T_I64; return; }
@@ -112,8 +116,8 @@ static void decode (uint64_t idx, proto *p) {
 }
 void drv_init (int thorough) {
   thorough_p = thorough; const char *m = getenv ("VP_MODE"); callee_mode = m && !strcmp (m, "callee");
-  G1 = 2 * (1 + NT + NT * NT + (uint64_t) NT * NT * NT); G2 = 9 * 11 * 3 * NT; G3 = 16 * 4; G4 = 4 * (1 + VT_N + VT_N * VT_N + VT_N * VT_N * VT_N); G5 = 5; G6 = 6 * 3;
-  NPROTO = G1 + G2 + G3 + G4 + G5 + G6;
+  G1 = 2 * (1 + NT + NT * NT + (uint64_t) NT * NT * NT); G2 = 9 * 11 * 3 * NT; G3 = 16 * 4; G4 = 4 * (1 + VT_N + VT_N * VT_N + VT_N * VT_N * VT_N); G5 = 5; G6 = 6 * 3; G7 = 14 * 4 * 2;
+  NPROTO = G1 + G2 + G3 + G4 + G5 + G6 + G7;
 }
 uint64_t drv_ncases (void) { return NPROTO * (callee_mode ? 2 : 1); }
 void drv_describe (uint64_t idx, char *b, size_t n) {
